@@ -1,467 +1,3 @@
-(* COPY of coq/Proofs/Line.v of branch wip-line (builder "line", commit b607c75), kept under a different
-   module name so that the triangle/polyline proofs do not depend on an unmerged branch.  When Proofs/Line.v is
-   in main this file can be replaced by `Require Export Proofs.Line`.  The additional lemmas needed by the
-   triangle proofs are in Proofs/Triangle.v. *)
-(* Proofs about Model/Line.v (thin lines, property C17 part a).
-   Method: (1) a scalar Bresenham run over (k, m, error) in the abstract major/minor frame, with the
-   invariant  error = 2*k*dmin - 2*m*dmaj  and  -dmaj < error <= dmaj  after the threshold test, which
-   gives the closed form  m_k = (2*k*dmin + dmaj - 1) / (2*dmaj);  (2) the model's run is the image
-   of the scalar run under  (k, m) |-> start + k*step_major + m*step_minor;  (3) the eight octants
-   are instances of the frame (bparams_new_frame, end_in_frame). *)
-From EG Require Import Base.Prelude Base.Lemmas Model.Geometry Model.Line Proofs.Geometry.
-From Coq Require Import ZifyBool.
-
-Ltac Zify.zify_post_hook ::= Z.to_euclidean_division_equations.
-Set Default Timeout 60.
-
-(* ---- range hypothesis ---------------------------------------------------
-   Coordinates within +-2^28: then |delta| <= 2^29 and every value the error accumulator takes
-   (at most 3 * delta.major in absolute value, see line_no_overflow) fits an i32.
-   NOTE: +-2^29 would NOT do: error_step.minor = 2 * delta.major reaches 2^31. *)
-Definition lbound : Z := 268435456. (* 2^28 *)
-Definition lpoint_ok (p : point) : Prop := - lbound <= px p <= lbound /\ - lbound <= py p <= lbound.
-Definition line_ok (l : line) : Prop := lpoint_ok (l_start l) /\ lpoint_ok (l_end l).
-
-(* ---- generic list helpers ------------------------------------------------ *)
-Lemma nth_error_range_from a n i :
-  (i < n)%nat -> nth_error (range_from a n) i = Some (a + Z.of_nat i).
-Proof.
-  revert a i; induction n as [|n IH]; intros a i Hi; [lia|].
-  destruct i as [|i]; cbn [range_from nth_error].
-  - f_equal. lia.
-  - rewrite IH by lia. f_equal. lia.
-Qed.
-
-Lemma last_opt_app1 {A} (l : list A) x : last_opt (l ++ [x]) = Some x.
-Proof.
-  induction l as [|a l IH]; [reflexivity|].
-  cbn [app]. destruct (l ++ [x]) eqn:E.
-  - destruct l; discriminate.
-  - cbn [last_opt]. rewrite <- IH. reflexivity.
-Qed.
-
-Lemma range_from_snoc a n : range_from a (Datatypes.S n) = range_from a n ++ [a + Z.of_nat n].
-Proof.
-  revert a; induction n as [|n IH]; intros a.
-  - cbn. f_equal. lia.
-  - change (range_from a (Datatypes.S (Datatypes.S n))) with (a :: range_from (a+1) (Datatypes.S n)).
-    rewrite IH. cbn [range_from app]. do 3 f_equal. lia.
-Qed.
-
-(* ======================================================================== *)
-(* 1. scalar Bresenham in the major/minor frame                              *)
-(* ======================================================================== *)
-Section Scalar.
-Variables dmaj dmin : Z.
-
-(* one Bresenham::next in the frame: k = major steps done, m = minor steps done *)
-Fixpoint srun (k m e : Z) (n : nat) : list (Z * Z) :=
-  match n with
-  | O => []
-  | Datatypes.S n' =>
-      let m1 := if dmaj <? e then m + 1 else m in
-      let e1 := if dmaj <? e then e - 2 * dmaj else e in
-      (k, m1) :: srun (k + 1) m1 (e1 + 2 * dmin) n'
-  end.
-
-(* closed form of the minor offset after k major steps: round(k*dmin/dmaj), ties towards 0 *)
-Definition Mk (k : Z) : Z := (2 * k * dmin + dmaj - 1) / (2 * dmaj).
-
-Hypothesis Hd : 0 <= dmin <= dmaj.
-
-Lemma Mk_spec k : 0 < dmaj -> - dmaj < 2 * (k * dmin - Mk k * dmaj) <= dmaj.
-Proof. intros. unfold Mk. lia. Qed.
-
-Lemma Mk_unique k m : 0 < dmaj -> - dmaj < 2 * (k * dmin - m * dmaj) <= dmaj -> m = Mk k.
-Proof.
-  intros H0 H. unfold Mk.
-  apply Z.div_unique with (r := 2 * (k * dmin - m * dmaj) + dmaj - 1); [left|]; lia.
-Qed.
-
-Lemma Mk_zero_len k : dmaj = 0 -> Mk k = 0.
-Proof. intros. unfold Mk. subst. replace (2*0) with 0 by lia. apply Zdiv_0_r. Qed.
-
-Lemma Mk_0 : Mk 0 = 0.
-Proof.
-  destruct (Z.eq_dec dmaj 0) as [E|E]; [apply Mk_zero_len; assumption|].
-  symmetry. apply Mk_unique; lia.
-Qed.
-
-Lemma Mk_end : Mk dmaj = dmin.
-Proof.
-  destruct (Z.eq_dec dmaj 0) as [E|E]; [rewrite Mk_zero_len by assumption; lia|].
-  symmetry. apply Mk_unique; lia.
-Qed.
-
-Lemma Mk_step k : 0 <= k -> Mk (k + 1) = Mk k \/ Mk (k + 1) = Mk k + 1.
-Proof.
-  intros Hk. destruct (Z.eq_dec dmaj 0) as [E|E]; [rewrite !Mk_zero_len by assumption; lia|].
-  pose proof (Mk_spec k ltac:(lia)) as A. pose proof (Mk_spec (k+1) ltac:(lia)) as B.
-  set (q := Mk k) in *. set (q' := Mk (k+1)) in *.
-  assert (q' - q < 2) by nia. assert (-1 < q' - q) by nia. lia.
-Qed.
-
-Lemma Mk_range k : 0 <= k -> 0 <= Mk k <= k.
-Proof.
-  intros Hk. destruct (Z.eq_dec dmaj 0) as [E|E]; [rewrite Mk_zero_len by assumption; lia|].
-  pose proof (Mk_spec k ltac:(lia)) as A. set (q := Mk k) in *. split; nia.
-Qed.
-
-Lemma Mk_mono j k : 0 <= j <= k -> Mk j <= Mk k.
-Proof.
-  intros H. replace k with (j + Z.of_nat (Z.to_nat (k - j))) by lia.
-  induction (Z.to_nat (k - j)) as [|n IH]; [replace (j + Z.of_nat 0) with j by lia; lia|].
-  replace (j + Z.of_nat (Datatypes.S n)) with (j + Z.of_nat n + 1) by lia.
-  pose proof (Mk_step (j + Z.of_nat n) ltac:(lia)). lia.
-Qed.
-
-(* the invariant of the state BEFORE the k-th call of next *)
-Definition sinv (k m e : Z) : Prop :=
-  e = 2 * k * dmin - 2 * m * dmaj /\
-  ((k = 0 /\ m = 0) \/ (- dmaj + 2 * dmin < e <= dmaj + 2 * dmin)).
-
-Lemma srun_closed n : forall k m e,
-  0 < dmaj -> 0 <= k -> sinv k m e ->
-  srun k m e n = map (fun j => (j, Mk j)) (range_from k n).
-Proof.
-  induction n as [|n IH]; intros k m e H0 Hk [He Hb]; [reflexivity|].
-  cbn [srun range_from map].
-  assert (Hm : (if dmaj <? e then m + 1 else m) = Mk k).
-  { apply Mk_unique; [assumption|]. destruct (dmaj <? e) eqn:T; lia. }
-  rewrite Hm. f_equal. apply IH; [assumption | lia |].
-  pose proof (Mk_spec k H0) as S. unfold sinv. rewrite <- Hm in *.
-  destruct (dmaj <? e) eqn:T; split; lia.
-Qed.
-
-Lemma srun_zero_len n : forall k, dmaj = 0 ->
-  srun k 0 0 n = map (fun j => (j, Mk j)) (range_from k n).
-Proof.
-  induction n as [|n IH]; intros k E; [reflexivity|].
-  cbn [srun range_from map]. assert (T : dmaj <? 0 = false) by lia. rewrite T.
-  replace (0 + 2 * dmin) with 0 by lia. rewrite Mk_zero_len by assumption.
-  f_equal. apply IH. assumption.
-Qed.
-
-End Scalar.
-
-(* ======================================================================== *)
-(* 2. the model's run is the image of the scalar run                        *)
-(* ======================================================================== *)
-(* the point  s + k*a + m*b  (a = major step vector, b = minor step vector) *)
-Definition fpt (s a b : point) (k m : Z) : point :=
-  P (px s + k * px a + m * px b) (py s + k * py a + m * py b).
-
-Lemma bresenham_run_frame dmaj dmin s a b n : forall k m e,
-  bresenham_run (BP dmaj (2 * dmin) (2 * dmaj) a b) (BS (fpt s a b k m) e) n
-  = map (fun km => fpt s a b (fst km) (snd km)) (srun dmaj dmin k m e n).
-Proof.
-  induction n as [|n IH]; intros k m e; [reflexivity|].
-  cbn [bresenham_run srun map fst snd]. unfold bnext.
-  cbn [error_threshold error_step_major error_step_minor pos_step_major pos_step_minor b_point b_error].
-  destruct (dmaj <? e); cbn [b_point b_error]; f_equal.
-  - unfold padd, fpt; cbn [px py]; f_equal; lia.
-  - rewrite <- IH. f_equal. f_equal. unfold padd, fpt; cbn [px py]; f_equal; lia.
-  - rewrite <- IH. f_equal. f_equal. unfold padd, fpt; cbn [px py]; f_equal; lia.
-Qed.
-
-(* ======================================================================== *)
-(* 3. the octants as instances of the frame                                 *)
-(* ======================================================================== *)
-Definition ldelta (l : line) : point := psub (l_end l) (l_start l).
-Definition ldx (l : line) : Z := px (l_end l) - px (l_start l).
-Definition ldy (l : line) : Z := py (l_end l) - py (l_start l).
-Definition sgn (x : Z) : Z := if 0 <=? x then 1 else -1.
-(* bresenham.rs:53: the y axis is the major axis when |dy| >= |dx| (ties: y) *)
-Definition y_major (l : line) : bool := Z.abs (ldx l) <=? Z.abs (ldy l).
-Definition ldmaj (l : line) : Z := Z.max (Z.abs (ldx l)) (Z.abs (ldy l)).
-Definition ldmin (l : line) : Z := Z.min (Z.abs (ldx l)) (Z.abs (ldy l)).
-Definition lsmaj (l : line) : point := if y_major l then P 0 (sgn (ldy l)) else P (sgn (ldx l)) 0.
-Definition lsmin (l : line) : point := if y_major l then P (sgn (ldx l)) 0 else P 0 (sgn (ldy l)).
-
-Ltac unfl := unfold ldmaj, ldmin, lsmaj, lsmin, y_major, sgn, ldx, ldy, ldelta, psub, padd, fpt in *;
-  cbn [l_start l_end px py] in *.
-
-Lemma ldm_ok l : 0 <= ldmin l <= ldmaj l.
-Proof. unfl. lia. Qed.
-
-Lemma bparams_new_frame l :
-  bparams_new l = BP (ldmaj l) (2 * ldmin l) (2 * ldmaj l) (lsmaj l) (lsmin l).
-Proof.
-  unfold bparams_new. unfl.
-  destruct (Z.abs (px (l_end l) - px (l_start l)) <=? Z.abs (py (l_end l) - py (l_start l))) eqn:T;
-    f_equal; lia.
-Qed.
-
-Lemma major_length_frame l : major_length l = ldmaj l + 1.
-Proof. unfold major_length. unfl. reflexivity. Qed.
-
-Lemma fpt_0 s a b : fpt s a b 0 0 = s.
-Proof. destruct s as [x y]. unfold fpt; cbn [px py]. f_equal; lia. Qed.
-
-Lemma end_in_frame l : l_end l = fpt (l_start l) (lsmaj l) (lsmin l) (ldmaj l) (ldmin l).
-Proof.
-  destruct l as [[sx sy] [ex ey]]. unfl.
-  destruct (Z.abs (ex - sx) <=? Z.abs (ey - sy)) eqn:T;
-  destruct (0 <=? ex - sx) eqn:X; destruct (0 <=? ey - sy) eqn:Y; cbn [px py]; f_equal; lia.
-Qed.
-
-(* the k-th point of the line, in closed form *)
-Definition line_pt (l : line) (k : Z) : point :=
-  fpt (l_start l) (lsmaj l) (lsmin l) k (Mk (ldmaj l) (ldmin l) k).
-
-Lemma line_points_closed l :
-  line_points l = map (line_pt l) (range 0 (ldmaj l + 1)).
-Proof.
-  unfold line_points. rewrite bparams_new_frame, major_length_frame.
-  rewrite <- (fpt_0 (l_start l) (lsmaj l) (lsmin l)) at 1.
-  rewrite bresenham_run_frame. pose proof (ldm_ok l) as Hd.
-  unfold range. replace (ldmaj l + 1 - 0) with (ldmaj l + 1) by lia.
-  destruct (Z.eq_dec (ldmaj l) 0) as [E|E].
-  - rewrite srun_zero_len by assumption. rewrite map_map. reflexivity.
-  - rewrite srun_closed; [| assumption | lia | lia | unfold sinv; lia].
-    rewrite map_map. reflexivity.
-Qed.
-
-Lemma length_line_points l : Z.of_nat (length (line_points l)) = ldmaj l + 1.
-Proof.
-  rewrite line_points_closed, map_length, length_range. pose proof (ldm_ok l). lia.
-Qed.
-
-Lemma nth_line_points l i p :
-  nth_error (line_points l) i = Some p -> Z.of_nat i <= ldmaj l /\ p = line_pt l (Z.of_nat i).
-Proof.
-  intros H. assert (L : (i < length (line_points l))%nat) by (apply nth_error_Some; congruence).
-  pose proof (length_line_points l). split; [lia|].
-  rewrite line_points_closed in H. unfold range in H.
-  rewrite nth_error_map, nth_error_range_from in H by lia.
-  cbn [option_map] in H. injection H as <-. f_equal.
-Qed.
-
-(* ---- C17 statements, thin lines ------------------------------------------ *)
-Lemma line_first l : hd_error (line_points l) = Some (l_start l).
-Proof.
-  rewrite line_points_closed. pose proof (ldm_ok l) as Hd.
-  rewrite range_cons by lia. cbn [map hd_error]. unfold line_pt.
-  rewrite Mk_0 by assumption. rewrite fpt_0. reflexivity.
-Qed.
-
-Lemma line_last l : last_opt (line_points l) = Some (l_end l).
-Proof.
-  rewrite line_points_closed. pose proof (ldm_ok l) as Hd.
-  unfold range. replace (Z.to_nat (ldmaj l + 1 - 0)) with (Datatypes.S (Z.to_nat (ldmaj l))) by lia.
-  rewrite range_from_snoc, map_app. cbn [map]. rewrite last_opt_app1. f_equal.
-  unfold line_pt. replace (0 + Z.of_nat (Z.to_nat (ldmaj l))) with (ldmaj l) by lia.
-  rewrite Mk_end by assumption. symmetry. apply end_in_frame.
-Qed.
-
-Lemma line_length l :
-  Z.of_nat (length (line_points l)) = Z.max (Z.abs (ldx l)) (Z.abs (ldy l)) + 1.
-Proof. apply length_line_points. Qed.
-
-(* consecutive points: exactly one step along the major axis (in the direction of the end point),
-   none or one along the minor axis (in the direction of the end point) *)
-Definition step_ok (l : line) (p q : point) : Prop :=
-  if y_major l
-  then py q = py p + sgn (ldy l) /\ (px q = px p \/ px q = px p + sgn (ldx l))
-  else px q = px p + sgn (ldx l) /\ (py q = py p \/ py q = py p + sgn (ldy l)).
-
-Lemma line_step l i p q :
-  nth_error (line_points l) i = Some p -> nth_error (line_points l) (Datatypes.S i) = Some q ->
-  step_ok l p q.
-Proof.
-  intros Hp Hq. apply nth_line_points in Hp, Hq. destruct Hp as [_ ->], Hq as [_ ->].
-  pose proof (ldm_ok l) as Hd.
-  replace (Z.of_nat (Datatypes.S i)) with (Z.of_nat i + 1) by lia.
-  pose proof (Mk_step _ _ Hd (Z.of_nat i) ltac:(lia)) as M.
-  unfold step_ok, line_pt. set (m := Mk _ _ (Z.of_nat i)) in *. set (m' := Mk _ _ (Z.of_nat i + 1)) in *.
-  clearbody m m'. unfold fpt, lsmaj, lsmin. destruct (y_major l); cbn [px py]; lia.
-Qed.
-
-(* the k-th point: k along the major axis, and the minor offset within half a pixel of k*dmin/dmaj *)
-Definition half_pixel_ok (l : line) (k : Z) (p : point) : Prop :=
-  let ox := px p - px (l_start l) in
-  let oy := py p - py (l_start l) in
-  if y_major l
-  then oy = k * sgn (ldy l) /\ ox = Z.abs ox * sgn (ldx l) /\
-       2 * Z.abs (Z.abs ox * Z.abs (ldy l) - k * Z.abs (ldx l)) <= Z.abs (ldy l)
-  else ox = k * sgn (ldx l) /\ oy = Z.abs oy * sgn (ldy l) /\
-       2 * Z.abs (Z.abs oy * Z.abs (ldx l) - k * Z.abs (ldy l)) <= Z.abs (ldx l).
-
-Lemma Mk_half dmaj dmin k : 0 <= dmin <= dmaj -> 0 <= k ->
-  2 * Z.abs (Mk dmaj dmin k * dmaj - k * dmin) <= dmaj.
-Proof.
-  intros Hd Hk. destruct (Z.eq_dec dmaj 0) as [E|E].
-  - rewrite Mk_zero_len by assumption. assert (dmin = 0) by lia. subst. lia.
-  - pose proof (Mk_spec dmaj dmin k ltac:(lia)). lia.
-Qed.
-
-Lemma line_half_pixel l i p :
-  nth_error (line_points l) i = Some p -> half_pixel_ok l (Z.of_nat i) p.
-Proof.
-  intros Hp. apply nth_line_points in Hp. destruct Hp as [_ ->].
-  pose proof (ldm_ok l) as Hd.
-  pose proof (Mk_half _ _ (Z.of_nat i) Hd ltac:(lia)) as M.
-  pose proof (Mk_range _ _ Hd (Z.of_nat i) ltac:(lia)) as R.
-  unfold half_pixel_ok, line_pt. set (m := Mk _ _ _) in *. clearbody m.
-  set (k := Z.of_nat i) in *. assert (0 <= k) by lia. clearbody k.
-  unfold fpt, lsmaj, lsmin, ldmaj, ldmin in *.
-  destruct (y_major l) eqn:Y; unfold y_major in Y; cbn [px py].
-  - rewrite Z.max_r, Z.min_l in * by lia.
-    replace (px (l_start l) + k * 0 + m * sgn (ldx l) - px (l_start l)) with (m * sgn (ldx l)) by lia.
-    replace (py (l_start l) + k * sgn (ldy l) + m * 0 - py (l_start l)) with (k * sgn (ldy l)) by lia.
-    assert (A : Z.abs (m * sgn (ldx l)) = m) by (unfold sgn; destruct (0 <=? ldx l); lia).
-    rewrite A. repeat split; lia.
-  - rewrite Z.max_l, Z.min_r in * by lia.
-    replace (px (l_start l) + k * sgn (ldx l) + m * 0 - px (l_start l)) with (k * sgn (ldx l)) by lia.
-    replace (py (l_start l) + k * 0 + m * sgn (ldy l) - py (l_start l)) with (m * sgn (ldy l)) by lia.
-    assert (A : Z.abs (m * sgn (ldy l)) = m) by (unfold sgn; destruct (0 <=? ldy l); lia).
-    rewrite A. repeat split; lia.
-Qed.
-
-(* ---- frame-free forms: cross and dot product with the direction vector --- *)
-Definition cross_to (l : line) (p : point) : Z :=
-  (px p - px (l_start l)) * ldy l - (py p - py (l_start l)) * ldx l.
-Definition dot_to (l : line) (p : point) : Z :=
-  (px p - px (l_start l)) * ldx l + (py p - py (l_start l)) * ldy l.
-
-(* in every octant  cross = +-(m*dmaj - k*dmin)  and  dot = k*dmaj + m*dmin *)
-Lemma frame_cross_dot l k m :
-  let p := fpt (l_start l) (lsmaj l) (lsmin l) k m in
-  Z.abs (cross_to l p) = Z.abs (m * ldmaj l - k * ldmin l) /\
-  dot_to l p = k * ldmaj l + m * ldmin l.
-Proof.
-  destruct l as [[sx sy] [ex ey]]. unfold cross_to, dot_to. unfl.
-  set (dx := ex - sx). set (dy := ey - sy).
-  destruct (Z.abs dx <=? Z.abs dy) eqn:T; destruct (0 <=? dx) eqn:X; destruct (0 <=? dy) eqn:Y; cbn [px py].
-  all: try (rewrite Z.max_r, Z.min_l by lia); try (rewrite Z.max_l, Z.min_r by lia).
-  all: try (rewrite (Z.abs_eq dx) by lia); try (rewrite (Z.abs_neq dx) by lia).
-  all: try (rewrite (Z.abs_eq dy) by lia); try (rewrite (Z.abs_neq dy) by lia).
-  all: split; [|ring].
-  all: match goal with |- Z.abs ?a = Z.abs ?b =>
-         (replace a with b by ring; reflexivity) || (replace a with (- b) by ring; apply Z.abs_opp) end.
-Qed.
-
-(* distance to the ideal line, measured along the minor axis, is |cross| / dmaj <= 1/2 *)
-Lemma line_cross_half l i p :
-  nth_error (line_points l) i = Some p ->
-  2 * Z.abs (cross_to l p) <= Z.max (Z.abs (ldx l)) (Z.abs (ldy l)).
-Proof.
-  intros Hp. apply nth_line_points in Hp. destruct Hp as [_ ->].
-  pose proof (ldm_ok l) as Hd. unfold line_pt.
-  destruct (frame_cross_dot l (Z.of_nat i) (Mk (ldmaj l) (ldmin l) (Z.of_nat i))) as [-> _].
-  apply (Mk_half _ _ (Z.of_nat i) Hd). lia.
-Qed.
-
-(* Euclidean distance to the ideal line: dist^2 = cross^2 / (dx^2 + dy^2) <= 1/4 *)
-Lemma line_euclid_half l i p :
-  nth_error (line_points l) i = Some p ->
-  4 * (cross_to l p * cross_to l p) <= ldx l * ldx l + ldy l * ldy l.
-Proof.
-  intros Hp. pose proof (line_cross_half l i p Hp) as H.
-  set (c := cross_to l p) in *. clearbody c.
-  set (dx := ldx l) in *. set (dy := ldy l) in *. clearbody dx dy.
-  assert (A : 4 * (c * c) <= Z.max (Z.abs dx) (Z.abs dy) * Z.max (Z.abs dx) (Z.abs dy)) by nia.
-  assert (B : Z.max (Z.abs dx) (Z.abs dy) * Z.max (Z.abs dx) (Z.abs dy) <= dx * dx + dy * dy) by nia.
-  lia.
-Qed.
-
-(* the foot of the perpendicular lies on the segment: 0 <= (p - start).(end - start) <= |end - start|^2 *)
-Lemma line_within_ends l i p :
-  nth_error (line_points l) i = Some p ->
-  0 <= dot_to l p <= ldx l * ldx l + ldy l * ldy l.
-Proof.
-  intros Hp. apply nth_line_points in Hp. destruct Hp as [Hi ->].
-  pose proof (ldm_ok l) as Hd. unfold line_pt.
-  destruct (frame_cross_dot l (Z.of_nat i) (Mk (ldmaj l) (ldmin l) (Z.of_nat i))) as [_ ->].
-  pose proof (Mk_range _ _ Hd (Z.of_nat i) ltac:(lia)) as R.
-  pose proof (Mk_mono _ _ Hd (Z.of_nat i) (ldmaj l) ltac:(lia)) as M. rewrite Mk_end in M by assumption.
-  set (m := Mk _ _ _) in *. clearbody m. set (k := Z.of_nat i) in *. assert (0 <= k) by lia. clearbody k.
-  assert (E : ldx l * ldx l + ldy l * ldy l = ldmaj l * ldmaj l + ldmin l * ldmin l) by (unfl; nia).
-  rewrite E. set (a := ldmaj l) in *. set (b := ldmin l) in *. clearbody a b. split; nia.
-Qed.
-
-(* each coordinate is monotone, in the direction of the end point *)
-Lemma line_monotone l i j p q :
-  (i <= j)%nat -> nth_error (line_points l) i = Some p -> nth_error (line_points l) j = Some q ->
-  0 <= sgn (ldx l) * (px q - px p) /\ 0 <= sgn (ldy l) * (py q - py p).
-Proof.
-  intros Hij Hp Hq. apply nth_line_points in Hp, Hq. destruct Hp as [_ ->], Hq as [_ ->].
-  pose proof (ldm_ok l) as Hd.
-  pose proof (Mk_mono _ _ Hd (Z.of_nat i) (Z.of_nat j) ltac:(lia)) as M.
-  unfold line_pt. set (m := Mk _ _ (Z.of_nat i)) in *. set (m' := Mk _ _ (Z.of_nat j)) in *.
-  clearbody m m'. assert (K : Z.of_nat i <= Z.of_nat j) by lia.
-  set (k := Z.of_nat i) in *. set (k' := Z.of_nat j) in *. clearbody k k'.
-  unfold fpt, lsmaj, lsmin, sgn.
-  destruct (y_major l); destruct (0 <=? ldx l); destruct (0 <=? ldy l); cbn [px py]; lia.
-Qed.
-
-(* ---- translation equivariance --------------------------------------------- *)
-Lemma bresenham_run_translate p d n : forall q e,
-  bresenham_run p (BS (padd q d) e) n = map (fun r => padd r d) (bresenham_run p (BS q e) n).
-Proof.
-  induction n as [|n IH]; intros q e; [reflexivity|].
-  cbn [bresenham_run]. unfold bnext. cbn [b_point b_error].
-  assert (C : forall a b, padd (padd a d) b = padd (padd a b) d)
-    by (intros; unfold padd; cbn [px py]; f_equal; lia).
-  destruct (error_threshold p <? e); cbn [b_point b_error map]; rewrite ?C, IH; reflexivity.
-Qed.
-
-Lemma line_points_translate l d :
-  line_points (translate_line l d) = map (fun p => padd p d) (line_points l).
-Proof.
-  unfold line_points.
-  assert (D : psub (l_end (translate_line l d)) (l_start (translate_line l d)) = psub (l_end l) (l_start l))
-    by (unfold translate_line, psub, padd; cbn [l_start l_end px py]; f_equal; lia).
-  assert (B : bparams_new (translate_line l d) = bparams_new l) by (unfold bparams_new; rewrite D; reflexivity).
-  assert (M : major_length (translate_line l d) = major_length l) by (unfold major_length; rewrite D; reflexivity).
-  rewrite B, M. cbn [translate_line l_start]. apply bresenham_run_translate.
-Qed.
-
-(* ---- no i32 overflow within line_ok ---------------------------------------- *)
-(* the states before each call of next, and after the last *)
-Fixpoint bstates (p : bparams) (s : bstate) (n : nat) : list bstate :=
-  match n with
-  | O => [s]
-  | Datatypes.S k => s :: bstates p (snd (bnext p s)) k
-  end.
-(* the value of `error` between the threshold test and the major step of Bresenham::next *)
-Definition err_after_test (p : bparams) (s : bstate) : Z :=
-  if error_threshold p <? b_error s then b_error s - error_step_minor p else b_error s.
-
-Lemma bnext_error p s : b_error (snd (bnext p s)) = err_after_test p s + error_step_major p.
-Proof. unfold bnext, err_after_test. destruct (error_threshold p <? b_error s); reflexivity. Qed.
-
-Lemma bstates_error_bound dmaj dmin a b n : forall s st,
-  0 <= dmin <= dmaj -> - dmaj <= b_error s <= dmaj + 2 * dmin ->
-  In st (bstates (BP dmaj (2 * dmin) (2 * dmaj) a b) s n) ->
-  - dmaj <= b_error st <= 3 * dmaj /\
-  - dmaj <= err_after_test (BP dmaj (2 * dmin) (2 * dmaj) a b) st <= dmaj.
-Proof.
-  induction n as [|n IH]; intros s st Hd Hs; cbn [bstates In].
-  - intros [<-|[]]. unfold err_after_test. cbn [error_threshold error_step_minor].
-    destruct (dmaj <? b_error s) eqn:T; lia.
-  - intros [<-|H].
-    + unfold err_after_test. cbn [error_threshold error_step_minor]. destruct (dmaj <? b_error s) eqn:T; lia.
-    + apply IH in H; [assumption | assumption |]. rewrite bnext_error.
-      unfold err_after_test. cbn [error_threshold error_step_minor error_step_major].
-      destruct (dmaj <? b_error s) eqn:T; lia.
-Qed.
-
-Definition i32 (x : Z) : Prop := -2147483648 <= x <= 2147483647.
-
-(* every intermediate value of Points::new / Bresenham::next fits an i32 *)
-Lemma line_no_overflow l st :
-  line_ok l ->
-  In st (bstates (bparams_new l) (BS (l_start l) 0) (Z.to_nat (major_length l))) ->
-  let p := bparams_new l in
-  i32 (ldx l) /\ i32 (ldy l) /\ i32 (error_threshold p) /\ i32 (error_step_major p) /\ i32 (error_step_minor p) /\
-  0 <= major_length l <= 4294967295 /\
-  i32 (b_error st) /\ i32 (err_after_test p st).
-Proof.
-  intros [[A1 A2] [A3 A4]] H. cbv zeta. rewrite bparams_new_frame in *.
-  pose proof (ldm_ok l) as Hd.
-  apply bstates_error_bound in H; [| assumption | cbn [b_error]; lia].
-  rewrite major_length_frame. cbn [error_threshold error_step_major error_step_minor].
-  assert (ldmaj l <= 2 * lbound) by (unfl; unfold lbound, lpoint_ok in *; lia).
-  unfold i32, lbound, lpoint_ok, ldx, ldy in *. lia.
-Qed.
+(* The thin-line lemmas (closed form of the Bresenham line, Proofs/Line.v of builder "line") under the name the
+   triangle / polyline proofs import.  The additional line lemmas needed there are in Proofs/Triangle.v section 1. *)
+From EG Require Export Proofs.Line.
